@@ -36,7 +36,7 @@ ASSUMPTIONS = [
 ]
 
 VALUES = [1, 1.0, True, 0, False, 0.0, -0.0, "1", None, [1, 2], [1.0, 2], [], {"x": 1}, {}, 2, "ab"]
-KEYS = ["a", "b", "n", "l"]
+KEYS = ["a", "b", "n", "l", "s", "pressure", "sp_x", "ps"]  # incl. names starting with the letters of the internal "sp." prefix
 
 
 @st.composite
@@ -50,7 +50,7 @@ def corpora(draw):
             if draw(st.integers(0, 3)) == 0:
                 continue
             v = draw(st.sampled_from(pools[k]))
-            if k == "n" and draw(st.booleans()):
+            if k in ("n", "s") and draw(st.booleans()):
                 v = {"x": v, "y": draw(st.sampled_from(pools["a"]))}
             sp[k] = v
         jobs.append(sp)
@@ -281,6 +281,7 @@ def _eq(a, b):
 
 
 CONSTRUCTED = [
+    {"jobs": [{"s": 1, "pressure": 2.5, "sp_x": "1", "ps": {"x": 1, "y": 0}}, {"s": {"x": 1, "y": 2}, "pressure": 2.5, "ps": 0}], "subset": None, "subset_kind": "ids", "exclude_const": True, "diffs": [[0, 1]]},
     {"jobs": [{"a": True}, {"a": 1}], "subset": None, "subset_kind": "ids", "exclude_const": True, "diffs": [[0, 1]]},
     {"jobs": [{"a": 1}, {"a": 1.0}, {"a": "1"}], "subset": [0, 1], "subset_kind": "jobs", "exclude_const": True, "diffs": [[0, 1, 2], [0]]},
     {"jobs": [{"a": 1, "n": {"x": 1, "y": 2}}, {"a": 1, "n": 3}, {"a": 1}], "subset": None, "subset_kind": "ids", "exclude_const": True, "diffs": [[0, 1, 2], []]},
